@@ -1,8 +1,11 @@
 from checks.common import Build, Job
+from checks import cross
 
 PROP = "C17"
 BUILDS = [Build("prog", "harness/c17_progress.c", flavor="spec", cds=True)] + \
          [Build("gp_" + f, "harness/c01_gp.c", flavor=f) for f in ("memb", "mb", "qsbr", "bp")]
+BUILDS = BUILDS + cross.gp_builds(("bp","memb"))   # cross-property core jobs (checks/cross.py)
+BUILDS = BUILDS + [Build("xlfht", "harness/c05_lfht.c", flavor="spec", cds=True)]
 RULE = ("victim threads run enqueue / push / pop / dequeue / splice / add / del / replace / add_unique / resize / synchronize_rcu; every "
         "placement of 1 (or 2) preemptions suspends them at an arbitrary visible step (between the two stores of an enqueue or push, "
         "after a logical delete and before its unlink, inside a resize, while spinning or asleep in wait_for_readers); the probing thread "
@@ -66,6 +69,15 @@ def jobs(tier):
                 if not q or qa == 1:
                     J.append(Job(b, "solo_reader", P2 if q else P3, dict(p, reader=1), env, workers=8))
                     J.append(Job(b, "solo_reader", P2, dict(p, reader=1, hold=1), env, workers=8))
+    # lock-freedom from states reached in the MIDDLE of an operation: two adders that both request a lazy grow; the one whose
+    # compare-and-swap on the resize target lost must complete once the other has finished (livelock detection decides)
+    from checks.lfht_common import prog, K_ADD, K_LOOKUP, K_DEL
+    lzp = dict(flags=1, hmap=4, init=1, ninit=3, init_keys=0x210)
+    J.append(Job("xlfht", "conc", "2,0,0,0", dict(lzp, prog0=prog((K_ADD, 3)), prog1=prog((K_ADD, 3), (K_LOOKUP, 0))), workers=8))
+    J.append(Job("xlfht", "conc", "2,0,0,0", dict(flags=3, hmap=1, count_commit_order=0, init=8, ninit=3, init_keys=0x210,
+                                                   prog0=prog((K_DEL, 0), (K_DEL, 1)), prog1=prog((K_DEL, 2), (K_ADD, 3))), workers=8))
+    # the components this property's guarantee is built on, on the real code (checks/cross.py)
+    J += cross.sig_core(tier)
     return J
 
 
